@@ -304,13 +304,12 @@ where
         name: &mut QualName,
     ) -> bool {
         // Attributes don't have default namespace
-        let mut not_duplicate = true;
-
         if name.prefix.is_some() {
             self.bind_qname(name);
-            not_duplicate = Self::check_duplicate_attr(present_attrs, name);
         }
-        not_duplicate
+        // An unprefixed attribute has an expanded name too: it must not be followed (or
+        // preceded) by an attribute whose prefix resolves to no namespace.
+        Self::check_duplicate_attr(present_attrs, name)
     }
 
     fn check_duplicate_attr(
